@@ -409,7 +409,34 @@ mod signals {
 		}
 	}
 
-	pub fn run(case: &Value) -> Value {
+	/// `--map-signal FROM:TO` through the CLI's own argument parser
+	async fn map_signal(case: &Value) -> Value {
+		let lc = case["lettercase"].as_str().unwrap();
+		let text = format!("{}:{}", recase(case["from"].as_str().unwrap(), lc), recase(case["to"].as_str().unwrap(), lc));
+		let argv: Vec<std::ffi::OsString> =
+			vec!["watchexec".into(), "--map-signal".into(), text.clone().into(), "--".into(), "true".into()];
+		match watchexec_cli::verif::args_from(argv).await {
+			Ok(args) => {
+				let maps: Vec<Value> = args
+					.events
+					.signal_map
+					.iter()
+					.map(|m| json!([os_number(m.from), m.to.map_or(json!(-1), os_number)]))
+					.collect();
+				json!({"maps": maps, "text": text})
+			}
+			Err(e) => json!({"error": format!("args: {e}"), "text": text}),
+		}
+	}
+
+	pub async fn run(case: &Value) -> Value {
+		if case["kind"].as_str() == Some("map") {
+			return map_signal(case).await;
+		}
+		run_sync(case)
+	}
+
+	fn run_sync(case: &Value) -> Value {
 		match case["kind"].as_str().unwrap() {
 			"parse" => {
 				let text = recase(case["text"].as_str().unwrap(), case["lettercase"].as_str().unwrap());
@@ -1012,7 +1039,7 @@ fn main() {
 							"origins" => origins::run(case, &scratch).await,
 							"ignore" => ignore::run(case, &scratch).await,
 							"cliflags" => cliflags::run(case, &scratch).await,
-							"signals" => signals::run(case),
+							"signals" => signals::run(case).await,
 							"spawn" => spawn::run(case, &scratch).await,
 							"discover" => discover::run(case, &scratch).await,
 							"globset" => globset::run(case, &scratch).await,
